@@ -213,6 +213,9 @@ class BigEdge:
         """
         vobject = self.get_vertex_object_by_id(vid)
         if method == "edge":
+            if len(self.vertices) == 2:
+                # two points define a straight interface: its direction is the segment itself
+                return np.array(self.get_straight_edge_versor_from_vid(vid), dtype=float)
             xc, yc = ve.calculate_circle_center(self.vertices, method=fit_method)
         elif method == "cell" and cell:
             xc, yc = cell.center_x, cell.center_y
